@@ -208,17 +208,17 @@ def run(eng, rep):
     rep.assumptions += ["IEEE min/max return one of their operands", "bounds are consistent (lower <= upper)", "dykstra performs at least one sweep (its result is the last projector's output: C15-2)"]
     A = anchors(eng)
     c02.rule_single_sink(eng, rep, A, rule="C01-1.single-sink")
-    rule_routing(eng, rep, A)
+    rep.guarded(rule_routing, eng, rep, A)
     seen = rep._frames_seen = set()
     n = rule_frames(eng, rep, seen_issue=seen)
     rep.require_count("C01-4.frame-agreement", "clamp/scaling/callback sites analysed over all configurations", n, 100)
     n1 = rule_frames(eng, rep, configs=frames.ONE_SIDED, seen_issue=seen)
     rep.require_count("C01-4.frame-agreement", "clamp/scaling/callback sites analysed over the one-sided bound patterns", n1, 100)
-    rule_shift_base(eng, rep)
-    rule_scaling_needs_two_sided_bounds(eng, rep)
+    rep.guarded(rule_shift_base, eng, rep)
+    rep.guarded(rule_scaling_needs_two_sided_bounds, eng, rep)
     rep.extra["configurations"] = [repr(c) for c in frames.CONFIGS + frames.ONE_SIDED]
     from .mirrorrule import rule_mirror
-    rule_mirror(eng, rep, 'C01-8.x0-is-pushed-onto-either-bound-symmetrically', ['solver.solve'])
+    rep.guarded(rule_mirror, eng, rep, 'C01-8.x0-is-pushed-onto-either-bound-symmetrically', ['solver.solve'])
 
 
 def thorough(eng, rep):
